@@ -27,6 +27,8 @@ enum HStep {
 	Send,
 	TrySend,
 	SendTimeout,
+	/// send_timeout, and on a timeout the message it hands back is sent again
+	SendTimeoutResend,
 	Clone,
 	IsClosed,
 	WaitClosed,
@@ -59,6 +61,9 @@ struct Spec {
 	/// an ordinary call that stays in its handler on this connection from the start until the given instant (ms) - also
 	/// across an unsubscribe, a disconnect or the server stop
 	held_call: Option<(usize, u64)>,
+	/// the peer of this connection does not read between the two instants (ms); the transport buffer is small, so the
+	/// connection is congested meanwhile
+	peer_pause: Option<(usize, u64, u64)>,
 }
 
 #[derive(Debug, Clone)]
@@ -86,6 +91,7 @@ struct Out {
 	sends_after_close: usize,
 	points: usize,
 	trace: Vec<&'static str>,
+	resends: usize,
 }
 
 fn gen_spec(seed: u64) -> Spec {
@@ -108,7 +114,7 @@ fn gen_spec(seed: u64) -> Spec {
 					let s = match r.below(12) {
 						0..=5 => HStep::Send,
 						6 | 7 => HStep::TrySend,
-						8 => HStep::SendTimeout,
+						8 => if r.bool() { HStep::SendTimeout } else { HStep::SendTimeoutResend },
 						9 => HStep::Clone,
 						10 => HStep::IsClosed,
 						_ => HStep::WaitClosed,
@@ -134,6 +140,12 @@ fn gen_spec(seed: u64) -> Spec {
 		delays: r.chance(2, 3),
 		long_ids: r.chance(1, 10),
 		held_call: if r.chance(1, 3) { Some((r.usize(conns), r.below(horizon + 10))) } else { None },
+		peer_pause: if r.chance(1, 4) {
+			let from = r.below(8);
+			Some((r.usize(conns), from, from + 3 + r.below(15)))
+		} else {
+			None
+		},
 	}
 }
 
@@ -148,7 +160,10 @@ async fn run_spec(spec: &Spec, real_time: bool) -> Out {
 		cfg = cfg.set_id_provider(jsonrpsee_server::RandomStringIdProvider::new(300)).max_response_body_size(200);
 	}
 	let cfg = cfg.build();
-	let srv = MemServer::new(cfg, subctl::module(reg.clone()));
+	let mut srv = MemServer::new(cfg, subctl::module(reg.clone()));
+	if spec.peer_pause.is_some() {
+		srv.duplex_capacity = 400;
+	}
 
 	// connections: a reader task per connection records every frame with its ticket
 	let frames: Vec<Arc<Mutex<Vec<FrameEv>>>> = (0..spec.conns).map(|_| Default::default()).collect();
@@ -203,6 +218,19 @@ async fn run_spec(spec: &Spec, real_time: bool) -> Out {
 			let _ = ws.send_text(&msg).await;
 		}
 	}
+	if let Some((c, from, to)) = spec.peer_pause {
+		let w = writers[c].clone();
+		tokio::spawn(async move {
+			tokio::time::sleep(Duration::from_millis(from)).await;
+			if let Some(ws) = w.lock().await.as_ref() {
+				ws.set_reading(false);
+			}
+			tokio::time::sleep(Duration::from_millis(to - from)).await;
+			if let Some(ws) = w.lock().await.as_ref() {
+				ws.set_reading(true);
+			}
+		});
+	}
 	if let Some((c, until)) = spec.held_call {
 		let msg = json!({"jsonrpc": "2.0", "id": 777, "method": "hold", "params": ["held"]}).to_string();
 		if let Some(ws) = writers[c].lock().await.as_mut() {
@@ -248,6 +276,10 @@ async fn run_spec(spec: &Spec, real_time: bool) -> Out {
 					HStep::SendTimeout => {
 						seq += 1;
 						(Cmd::SendTimeout(sink, json!({"tag": tag, "seq": seq}), 5), Some(seq))
+					}
+					HStep::SendTimeoutResend => {
+						seq += 1;
+						(Cmd::SendTimeoutResend(sink, json!({"tag": tag, "seq": seq}), 2), Some(seq))
 					}
 					HStep::Clone => (Cmd::CloneSink(sink), None),
 					HStep::IsClosed => (Cmd::IsClosed(sink), None),
@@ -388,6 +420,7 @@ async fn run_spec(spec: &Spec, real_time: bool) -> Out {
 	pump(&writers, &frames).await;
 	out.trace = take_trace();
 	out.points = out.trace.len();
+	out.resends = reg.resends.load(std::sync::atomic::Ordering::SeqCst);
 	clear_thread_hook();
 
 	// ---------------------------------------------------------------------------------------------------------
@@ -557,6 +590,10 @@ fn record(spec: &Spec, o: Out, ev: &mut Evidence, violations: &mut Vec<Violation
 	if spec.held_call.is_some() {
 		ev.count("histories_with_an_ordinary_call_held_in_its_handler", 1);
 	}
+	if spec.peer_pause.is_some() {
+		ev.count("histories_with_a_peer_that_stops_reading_for_a_while", 1);
+	}
+	ev.count("messages_resent_after_a_send_timeout", o.resends as u64);
 	if o.notifications > 0 {
 		ev.nontrivial(&(spec.seed, spec.buffer));
 	}
